@@ -40,7 +40,8 @@ var (
 	pxThird  = chain.Acct("px-third")
 	pxW      = chain.Acct("px-withdraw")
 	pxOther  = chain.Acct("px-other")
-	pxVest   = chain.Acct("px-vest") // clawback vesting account: 1,000,000 ISLM free + 500,000 ISLM locked for five and unvested for ten years
+	pxFresh  = chain.Acct("px-fresh") // an existing account without native coins (it only holds 5 uxmpl): empty in the EVM's eyes
+	pxVest   = chain.Acct("px-vest")  // clawback vesting account: 1,000,000 ISLM free + 500,000 ISLM locked for five and unvested for ten years
 )
 
 var pxNewValKey = ed25519.GenPrivKeyFromSecret([]byte("px-new-validator"))
@@ -66,6 +67,7 @@ func pxBase() *chain.Node {
 		ctx := n.Ctx()
 		app := n.App
 		vals := pxVals(n)
+		must(app.BankKeeper.SendCoins(ctx, pxOther.Addr, pxFresh.Addr, sdk.NewCoins(sdk.NewCoin("uxmpl", sdkmath.NewInt(5)))))
 		// fund the frame addresses and let them (and the third party) delegate: stands for earlier activity
 		for i := 0; i < pxFrames; i++ {
 			must(app.BankKeeper.SendCoins(ctx, pxOther.Addr, pxFrameAcc(i), sdk.NewCoins(islm(5000))))
@@ -188,7 +190,7 @@ func genPxPre(t *rapid.T, methods []string) *PxPre {
 	p.Val = rapid.IntRange(0, 2).Draw(t, "val")
 	p.Val2 = rapid.IntRange(0, 2).Draw(t, "val2")
 	p.Amt = rapid.SampledFrom([]string{"1", "1000", "100000", "399000", "400000", "401000", "800000", "801000", "5000000"}).Draw(t, "amt")
-	p.To = rapid.SampledFrom([]string{"w", "w", "signer", "self", "third"}).Draw(t, "to")
+	p.To = rapid.SampledFrom([]string{"w", "w", "signer", "self", "third", "fresh"}).Draw(t, "to")
 	if p.Method == "createValidator" {
 		p.Who = "signer" // only the transaction's origin may create its own validator
 	}
@@ -227,8 +229,8 @@ func genPxProgram(t *rapid.T, o pxGenOpts) PxProgram {
 					Value: rapid.SampledFrom([]string{"0", "0", "0", "1"}).Draw(t, "prevalue"), Note: pre.Pre + "." + pre.Method}
 				f.Ops = append(f.Ops, PxOp{Op: op, Pre: pre})
 			case "send":
-				f.Ops = append(f.Ops, PxOp{Op: evmasm.Op{Kind: "send", Target: rapid.SampledFrom([]string{"signer", "third", "w", "frame0", "frame1", "frame2"}).Draw(t, "sendto"),
-					Value: rapid.SampledFrom([]string{"1", "1000", "1000000000000000000"}).Draw(t, "sendv")}})
+				f.Ops = append(f.Ops, PxOp{Op: evmasm.Op{Kind: "send", Target: rapid.SampledFrom([]string{"signer", "third", "w", "frame0", "frame1", "frame2", "fresh"}).Draw(t, "sendto"),
+					Value: rapid.SampledFrom([]string{"1", "1000", "1000000000000000000", "0"}).Draw(t, "sendv")}})
 			case "sstore":
 				f.Ops = append(f.Ops, PxOp{Op: evmasm.Op{Kind: "sstore", Key: uint64(rapid.IntRange(0, 3).Draw(t, "key")), Val: uint64(rapid.IntRange(0, 2).Draw(t, "val"))}})
 			case "log":
@@ -255,6 +257,16 @@ func genPxProgram(t *rapid.T, o pxGenOpts) PxProgram {
 		}
 		p.Frames = append(p.Frames, f)
 	}
+	if rapid.IntRange(0, 9).Draw(t, "touch-scenario") == 0 {
+		// an account that is empty in the EVM's eyes (no native coins, no code, nonce 0) is touched by a zero-value call, then receives coins on the Cosmos side
+		// (it becomes the withdraw address and rewards are withdrawn to it), all in one transaction
+		who := rapid.SampledFrom([]string{"self", "signer"}).Draw(t, "touch-who")
+		v := rapid.IntRange(0, 2).Draw(t, "touch-val")
+		pre := []PxOp{{Op: evmasm.Op{Kind: "send", Target: "fresh", Value: "0"}},
+			{Op: evmasm.Op{Kind: "pre", CallOp: "CALL", Value: "0", Note: "distribution.setWithdraw"}, Pre: &PxPre{Pre: "distribution", Method: "setWithdraw", Who: who, To: "fresh", Amt: "1"}},
+			{Op: evmasm.Op{Kind: "pre", CallOp: "CALL", Value: "0", Note: "distribution.withdraw"}, Pre: &PxPre{Pre: "distribution", Method: "withdraw", Who: who, Val: v, Amt: "1"}}}
+		p.Frames[0].Ops = append(pre, p.Frames[0].Ops...)
+	}
 	// drop frames that are never called (keeps the case small)
 	return p
 }
@@ -269,6 +281,8 @@ func pxAddrOf(name string, self common.Address) common.Address {
 		return pxThird.Hex
 	case name == "w":
 		return pxW.Hex
+	case name == "fresh":
+		return pxFresh.Hex
 	case name == "self":
 		return self
 	case strings.HasPrefix(name, "frame"):
@@ -470,7 +484,7 @@ func pxAccount(n *chain.Node, addr sdk.AccAddress) pxAccountState {
 }
 
 func pxAllAccounts() map[string]sdk.AccAddress {
-	m := map[string]sdk.AccAddress{"signer": pxSigner.Addr, "third": pxThird.Addr, "w": pxW.Addr, "other": pxOther.Addr,
+	m := map[string]sdk.AccAddress{"signer": pxSigner.Addr, "third": pxThird.Addr, "w": pxW.Addr, "other": pxOther.Addr, "fresh": pxFresh.Addr,
 		"staking-precompile": sdk.AccAddress(pabi.StakingAddr.Bytes()), "distribution-precompile": sdk.AccAddress(pabi.DistributionAddr.Bytes()),
 		"bonded-pool": authtypes.NewModuleAddress(stakingtypes.BondedPoolName), "not-bonded-pool": authtypes.NewModuleAddress(stakingtypes.NotBondedPoolName),
 		"distribution": authtypes.NewModuleAddress(distrtypes.ModuleName), "fee-collector": authtypes.NewModuleAddress(authtypes.FeeCollectorName),
